@@ -431,6 +431,11 @@ func c03GenArts(t *rapid.T, label string, paths []string) map[string]map[string]
 		if rapid.IntRange(0, 2).Draw(t, label+"present") == 0 {
 			continue
 		}
+		if rapid.IntRange(0, 11).Draw(t, label+"nullhash") == 0 {
+			// recorded without any digest (a JSON null where the hash object belongs): still an artifact
+			out[p] = nil
+			continue
+		}
 		h := map[string]string{}
 		switch rapid.IntRange(0, 5).Draw(t, label+"algs") {
 		case 0:
@@ -523,7 +528,9 @@ func c03Gen(t *rapid.T) c03Case {
 		} else {
 			dst.Products = moved
 		}
-		c.Links["dst"] = dst
+		// (step names are case-sensitive: "Dst" is another step than "dst", which may have a link of its own)
+		dname := rapid.SampledFrom([]string{"dst", "dst", "dst", "Dst", "DST-1", "Build"}).Draw(t, "cdstname")
+		c.Links[dname] = dst
 		rule := []string{"MATCH", rapid.SampledFrom([]string{"*", "*", "a", "?", "x/*"}).Draw(t, "cpat")}
 		if src != "" {
 			rule = append(rule, "IN", src)
@@ -532,7 +539,7 @@ func c03Gen(t *rapid.T) c03Case {
 		if dstp != "" {
 			rule = append(rule, "IN", dstp)
 		}
-		rule = append(rule, "FROM", "dst")
+		rule = append(rule, "FROM", dname)
 		rules := [][]string{rule}
 		if rapid.IntRange(0, 3).Draw(t, "cextra") == 0 {
 			rules = append([][]string{c03GenRule(t, paths, names)}, rules...)
